@@ -23,18 +23,18 @@ Poisoned(cx) == [idx |-> cx.idx,
                  bh |-> [j \in 1..LEN |-> IF cx.bh[j] = NIL THEN NIL ELSE POISON],
                  half |-> IF cx.half = NIL THEN NIL ELSE POISON, hf |-> POISON, hh |-> POISON]
 
-IInit == [size |-> SzZero, fixed |-> NIL, eb |-> Borders[0], st |-> 0, en |-> 1,
+IInit == [size |-> SzZero, fixed |-> NoSize, eb |-> Borders[0], st |-> 0, en |-> 1,
           lim |-> NUM - 1, mask |-> 0, roll |-> RollInit,
           cx |-> [i \in 0..(NUM - 1) |-> ICtxNew], hl |-> HInit, isl |-> FALSE]
 (* Generator::reset() *)
-IReset(s) == [s EXCEPT !.size = SzZero, !.fixed = NIL, !.eb = Borders[0], !.st = 0, !.en = 1,
+IReset(s) == [s EXCEPT !.size = SzZero, !.fixed = NoSize, !.eb = Borders[0], !.st = 0, !.en = 1,
                        !.lim = NUM - 1, !.mask = 0, !.roll = RollInit, !.isl = FALSE,
                        !.hl = POISON,
                        !.cx = [i \in 0..(NUM - 1) |->
                                  IF i = 0 THEN ICtxReset(s.cx[0]) ELSE Poisoned(s.cx[i])]]
 (* set_fixed_input_size(): result and effect *)
 ISetFixedResult(s, n) == IF SzLT(MaxSize, n) THEN "TooLarge"
-                         ELSE IF s.fixed # NIL /\ s.fixed # n THEN "Mismatch" ELSE "Ok"
+                         ELSE IF s.fixed # NoSize /\ s.fixed # n THEN "Mismatch" ELSE "Ok"
 ISetFixed(s, n) == IF ISetFixedResult(s, n) # "Ok" THEN s
                    ELSE [s EXCEPT !.fixed = n, !.lim = MinOf(NUM - 1, Guess(n) + 1)]
 
@@ -55,7 +55,7 @@ ILevel(s, i) ==
                                            !.half = IF cx.idx + 1 < HALF THEN NIL ELSE cxa.half,
                                            !.hh = IF cx.idx + 1 < HALF THEN HInit ELSE cxa.hh]]
      ELSE LET s2  == [s1 EXCEPT !.cx[i] = cxa]
-              szr == IF s2.fixed = NIL THEN s2.size ELSE s2.fixed
+              szr == IF s2.fixed = NoSize THEN s2.size ELSE s2.fixed
           IN IF s2.en - s2.st >= 2 /\ SzLT(s2.eb, szr) /\ s2.cx[i + 1].idx >= HALF
              THEN [s2 EXCEPT !.st = s2.st + 1, !.mask = s2.mask + 1, !.eb = SzAdd(s2.eb, s2.eb)]
              ELSE s2
@@ -86,7 +86,7 @@ IBh2T(cx, rz) == IF cx.half # NIL
                  ELSE LET base == [j \in 1..cx.idx |-> cx.bh[j]] IN
                       IF rz THEN base ELSE Append(base, cx.hh)
 IFinRz(s, trunc, long, rz) ==
-  IF s.fixed # NIL /\ s.fixed # s.size THEN [err |-> "Mismatch"]
+  IF s.fixed # NoSize /\ s.fixed # s.size THEN [err |-> "Mismatch"]
   ELSE IF SzLT(MaxSize, s.size) THEN [err |-> "TooLarge"]
   ELSE LET bi == IAdj(s, MinOf(MaxOf(Guess(s.size), s.st), s.en - 1))
            b2 == IF bi < s.en - 1
